@@ -39,6 +39,8 @@ def _preimport():
     import taurex
     import taurex.log
     taurex.log.disableLogging()
+    import logging
+    logging.disable(logging.CRITICAL)
     for m in pkgutil.walk_packages(taurex.__path__, 'taurex.'):
         if any(x in m.name for x in ('plot', 'lightcurve', 'radis', 'dypolychord', 'mixin', 'taurex.taurex')):
             continue
